@@ -27,7 +27,9 @@ class C02(runner.Check):
           'after every suggest the response and ListTrials are checked against the contract (size, ACTIVE + '
           'assigned, own first, then pool, then new; nothing dropped; fresh ids); distinct = hash of the '
           '(worker, N, own/pool/new mix, delivery mode) sequence; non-trivial iff >=2 workers and >=1 '
-          'suggest served from >=2 sources')
+          'suggest served from >=2 sources; 10 % of the evaluations instead run a suggest-centred batch of 2-3 '
+          'concurrent calls (suggest by another worker / request / complete / stop) under C04\'s seeded thread '
+          'scheduler and serial-equivalence oracle')
   assumptions = [
       'order of trials inside a response is not checked, only which sources they come from',
       'the number of suggestions the algorithm delivered is observed at the policy seam',
@@ -37,9 +39,11 @@ class C02(runner.Check):
   chunk = 20
   probes = ['probe.own-only-answer', 'probe.pool-used', 'probe.over-delivery-queued',
             'probe.short-delivery', 'probe.zero-delivery', 'probe.two-sources', 'probe.three-sources',
-            'probe.client-suggest', 'probe.repeat-same-set']
+            'probe.client-suggest', 'probe.repeat-same-set', 'probe.concurrent-batch']
 
   def gen(self, rng, idx, tier):
+    if rng.random() < 0.10:
+      return self._gen_concurrent(rng, idx, tier)
     cfg = {
         'backend': rng.choice(['ram', 'ram', 'sqlmem', 'sqlfile']),
         'algorithm': rng.choice(['SEQUENCE', 'SEQUENCE', 'GRID_SEARCH', 'QUASI_RANDOM_SEARCH', 'RANDOM_SEARCH']),
@@ -87,15 +91,62 @@ class C02(runner.Check):
         ops.append([k, {'study': ss, 'trial': {'pref': 'active', 'i': rng.randrange(8)}}])
     return {'cfg': cfg, 'faults': faults, 'entropy': rng.randrange(2**31), 'ops': ops}
 
+  def _gen_concurrent(self, rng, idx, tier):
+    """Suggest-centred concurrent batch: the same contract while other workers act at the same time.
+
+    Engine, schedule search and serial-equivalence oracle are C04's; only the
+    batch is restricted to what C02 speaks about (suggest vs. suggest by
+    another worker / request / add_trial / complete / stop in the same study).
+    """
+    from checks import c04  # pylint: disable=g-import-not-at-top
+    plan = c04.CHECK.gen(rng, idx, tier)
+    s0 = {'o': 0, 'd': 0}
+    if rng.random() < 0.5:
+      plan['ops'] = plan['ops'] + [['CreateTrial', {'study': s0, 'x': rng.randrange(100), 'tkind': 'plain'}]
+                                   for _ in range(rng.choice([1, 2]))]
+    w = rng.randrange(4)
+    batch = [['SuggestTrials', {'study': s0, 'n': rng.choice([1, 2, 3]), 'worker': w}]]
+    for _ in range(rng.choice([1, 1, 2])):
+      k = rng.choice(['SuggestTrials', 'SuggestTrials', 'CreateTrial', 'CreateTrial', 'CompleteTrial', 'StopTrial'])
+      if k == 'SuggestTrials':
+        batch.append([k, {'study': s0, 'n': rng.choice([1, 2, 3]), 'worker': (w + rng.randrange(1, 4)) % 4}])
+      elif k == 'CreateTrial':
+        batch.append([k, {'study': s0, 'x': rng.randrange(100), 'tkind': rng.choice(['plain', 'plain', 'succeeded'])}])
+      elif k == 'CompleteTrial':
+        batch.append([k, {'study': s0, 'trial': {'pref': rng.choice(['active', 'requested']), 'i': rng.randrange(4)},
+                          'ckind': 'final', 'v': rng.randrange(5), 'w': 0}])
+      else:
+        batch.append([k, {'study': s0, 'trial': {'pref': rng.choice(['active', 'requested']), 'i': rng.randrange(4)}}])
+    rng.shuffle(batch)
+    plan['batch'] = batch
+    plan['scheds'] = plan['scheds'][:10]
+    plan['conc'] = True
+    return plan
+
   def shrink_lists(self, plan):
+    if plan.get('conc'):
+      from checks import c04  # pylint: disable=g-import-not-at-top
+      return c04.CHECK.shrink_lists(plan)
     return ['ops', 'faults']
 
   def simplify(self, plan):
+    if plan.get('conc'):
+      from checks import c04  # pylint: disable=g-import-not-at-top
+      yield from c04.CHECK.simplify(plan)
+      return
     if plan['cfg'].get('backend') != 'ram':
       yield dict(plan, cfg=dict(plan['cfg'], backend='ram'))
     yield from W.simplify_ops(plan)
 
   def run(self, plan):
+    if plan.get('conc'):
+      from checks import c04  # pylint: disable=g-import-not-at-top
+      res = c04.CHECK.run(plan)
+      res.bump('probe.concurrent-batch')
+      for v in res.violations:
+        if isinstance(v, dict) and 'clause' in v:
+          v['clause'] = 'concurrent-workers:' + v['clause']
+      return res
     res = runner.Result()
     cfg = plan['cfg']
     clk = simclock.SimClock(epoch=cfg.get('epoch', simclock.EPOCH))
